@@ -25,6 +25,7 @@ func (s *Server) laURLHandlerFunc(w http.ResponseWriter, r *http.Request) {
 		msg := fmt.Sprintf("URL does not end with %s", laURLSuffix)
 		log.Error(msg)
 		http.Error(w, msg, http.StatusBadRequest)
+		return
 	}
 	// Parse JSON request body which looks like {"kids":["nrQFDeRLSAKTLifXUIPiZg"],"type":"temporary"}
 	// We only care about the kids array.
